@@ -67,6 +67,8 @@ func (f *spFam) Setup(cfg M, rng *rand.Rand) {
 	})
 	for _, l := range f.payers {
 		f.c.Fund(f.c.Ctx, f.c.Acct(l).Addr, sdk.NewCoins(sdk.NewInt64Coin("ujkl", geti0(cfg, "fund", 1_000_000))))
+		// other denominations in the payers' wallets (never accepted for storage)
+		f.c.Fund(f.c.Ctx, f.c.Acct(l).Addr, sdk.Coins{sdk.NewInt64Coin("UJKL", 1_000_000_000), sdk.NewInt64Coin("Ujkl", 1_000_000_000), sdk.NewInt64Coin("uusd", 1_000_000_000)})
 	}
 	for _, l := range append(append([]string{}, f.payers...), f.others...) {
 		a := f.c.Acct(l)
@@ -287,9 +289,22 @@ func (f *spFam) apply(st M, gb0 map[string]int64) M {
 		if quote > 2_000_000_000 { // beyond what the trace can carry (TLC integers are 32-bit): not attempted
 			return nil
 		}
+		// payment denomination: storage is sold in ujkl only. Every seventh request (or as the replayed step says) names another
+		// denomination the payer does hold (a case variant, the second denomination): the chain has no price for it (quote -1)
+		den, given := st["den"].(string)
+		if !given {
+			den = "ujkl"
+			if (un+days)%7 == 0 {
+				den = []string{"UJKL", "uusd", "Ujkl"}[(un/1000+days)%3]
+			}
+		}
+		ev["den"] = den
+		if den != "ujkl" {
+			quote = -1
+		}
 		ev["quote"] = quote
 		bB, idB := f.gaugeState()
-		_, err := f.c.Msg(f.ctx, &stypes.MsgBuyStorage{Creator: s.S(), ForAddress: forA.S(), DurationDays: days, Bytes: bytes, PaymentDenom: "ujkl", Referral: referral})
+		_, err := f.c.Msg(f.ctx, &stypes.MsgBuyStorage{Creator: s.S(), ForAddress: forA.S(), DurationDays: days, Bytes: bytes, PaymentDenom: den, Referral: referral})
 		ev["ok"] = err == nil
 		x["gid"] = "none"
 		if err == nil {
